@@ -18,34 +18,42 @@
 (*                           winds exactly once: +1 / -1)                                        *)
 (* TLC checks lemmas that tie these definitions to independent facts (Pick's theorem, a second  *)
 (* ray, reversal, translation and scaling) on every case and writes the table of expected       *)
-(* answers that the harness replays against the implementation (binding C).                     *)
+(* answers that the harness replays against the implementation (binding C).  A state of the     *)
+(* model is one table row: a polygon, the points examined and the answers for each of them.     *)
 EXTENDS Integers, FiniteSets, Sequences, SequencesExt, TLC, Json, IOUtils
 
 CONSTANTS Source,          \* "grid": all simple polygons on the grid; "file": cases read from IOEnv.CASES_IN
           N,               \* grid coordinates 0..N-1 (grid source)
           MinV, MaxV,      \* number of vertices (grid source)
-          Shard, NShards   \* grid source: polygons whose first vertex has index k with k % NShards = Shard
+          NShards,         \* the cases are dealt into this many shards (see Emit)
+          Only,            \* the shards this run works on (a subset of 0..NShards-1: sampling)
+          Deep             \* TRUE: also check the (costly) reversal / rotation / similarity lemmas
+
+VARIABLE row              \* one table row (declared first so that no operator parameter can shadow it)
 
 (* ---------------------------------------------------------------- vectors *)
 Sub(a, b) == <<a[1] - b[1], a[2] - b[2]>>
 Cross(u, v) == u[1] * v[2] - u[2] * v[1]
 Sgn(x) == IF x > 0 THEN 1 ELSE IF x < 0 THEN -1 ELSE 0
-Orient(a, b, c) == Sgn(Cross(Sub(b, a), Sub(c, a)))      \* +1: c left of a->b, -1 right, 0 collinear
+Abs(x) == IF x < 0 THEN -x ELSE x
+\* +1: c lies to the left of the directed line a->b, -1: to the right, 0: on it
+Orient(a, b, c) == Sgn((b[1] - a[1]) * (c[2] - a[2]) - (b[2] - a[2]) * (c[1] - a[1]))
 Within(x, a, b) == (a <= x /\ x <= b) \/ (b <= x /\ x <= a)
-OnSeg(p, a, b) == Orient(a, b, p) = 0 /\ Within(p[1], a[1], b[1]) /\ Within(p[2], a[2], b[2])
+InBox(p, a, b) == Within(p[1], a[1], b[1]) /\ Within(p[2], a[2], b[2])
+OnSeg(p, a, b) == Orient(a, b, p) = 0 /\ InBox(p, a, b)
 
 Nxt(i, n) == IF i = n THEN 1 ELSE i + 1
 SetMax(S) == CHOOSE x \in S : \A y \in S : y <= x
 SetMin(S) == CHOOSE x \in S : \A y \in S : x <= y
-RECURSIVE SumTo(_, _)
-SumTo(f, n) == IF n = 0 THEN 0 ELSE f[n] + SumTo(f, n - 1)
 
 (* ---------------------------------------------------------------- simple polygons *)
+\* closed segments ab and cd have a common point: a proper crossing, or an end of one on the other
 SegsMeet(a, b, c, d) ==
     LET o1 == Orient(a, b, c)  o2 == Orient(a, b, d)
         o3 == Orient(c, d, a)  o4 == Orient(c, d, b) IN
     \/ (o1 * o2 < 0 /\ o3 * o4 < 0)
-    \/ OnSeg(c, a, b) \/ OnSeg(d, a, b) \/ OnSeg(a, c, d) \/ OnSeg(b, c, d)
+    \/ (o1 = 0 /\ InBox(c, a, b)) \/ (o2 = 0 /\ InBox(d, a, b))
+    \/ (o3 = 0 /\ InBox(a, c, d)) \/ (o4 = 0 /\ InBox(b, c, d))
 
 Simple(vs) == LET n == Len(vs) IN
     /\ n >= 3
@@ -57,101 +65,129 @@ Simple(vs) == LET n == Len(vs) IN
           ELSE ~SegsMeet(a, b, c, d)
 
 \* twice the signed area (shoelace): positive = counter clockwise
-Area2(vs) == LET n == Len(vs) IN SumTo([i \in 1..n |-> Cross(vs[i], vs[Nxt(i, n)])], n)
+RECURSIVE Shoelace(_, _)
+Shoelace(vs, i) == IF i = 0 THEN 0 ELSE Cross(vs[i], vs[Nxt(i, Len(vs))]) + Shoelace(vs, i - 1)
+Area2(vs) == Shoelace(vs, Len(vs))
 
 (* ---------------------------------------------------------------- point location *)
 OnSides(p, vs) == {i \in 1..Len(vs) : OnSeg(p, vs[i], vs[Nxt(i, Len(vs))])}
-OnBoundary(p, vs) == OnSides(p, vs) # {}
+OnBoundary(p, vs) == \E i \in 1..Len(vs) : OnSeg(p, vs[i], vs[Nxt(i, Len(vs))])
 
-Xs(p, vs) == {vs[i][1] : i \in 1..Len(vs)} \cup {p[1]}
-Ys(p, vs) == {vs[i][2] : i \in 1..Len(vs)} \cup {p[2]}
-\* a ray p + t*(M, 1) with M larger than the x-extent of the figure meets a lattice point only at integer t,
+\* extents of a figure (vertices vs and points ps)
+ExtX(vs, ps) == LET xs == {vs[i][1] : i \in 1..Len(vs)} \cup {ps[i][1] : i \in 1..Len(ps)} IN SetMax(xs) - SetMin(xs)
+ExtY(vs, ps) == LET ys == {vs[i][2] : i \in 1..Len(vs)} \cup {ps[i][2] : i \in 1..Len(ps)} IN SetMax(ys) - SetMin(ys)
+\* a ray p + t*(M, 1) with M larger than the x-extent of the figure meets a lattice point only at integer t # 0,
 \* i.e. at least M columns away from p: it passes through no vertex (neither does its backward extension)
-Ray1(p, vs) == <<SetMax(Xs(p, vs)) - SetMin(Xs(p, vs)) + 1, 1>>
-\* a second, unrelated direction (down, slightly left), same argument on the rows
-Ray2(p, vs) == <<-1, -(SetMax(Ys(p, vs)) - SetMin(Ys(p, vs)) + 1)>>
+Ray1(vs, ps) == <<ExtX(vs, ps) + 1, 1>>
+\* a second, unrelated direction (down, slightly left); same argument on the rows
+Ray2(vs, ps) == <<-1, -(ExtY(vs, ps) + 1)>>
 
 SideOfRay(p, d, a) == Sgn(Cross(d, Sub(a, p)))
-\* side i is crossed by the ray iff its ends are strictly on different sides of the line and the
-\* meeting point has positive ray parameter  t = Cross(a - p, b - a) / Cross(d, b - a)
+\* a side a->b is crossed by the ray from p along d iff its ends are strictly on different sides of the line
+\* and the meeting point has a positive ray parameter  t = Cross(a - p, b - a) / Cross(d, b - a)
 Crossed(p, d, a, b) ==
     LET sa == SideOfRay(p, d, a)  sb == SideOfRay(p, d, b) IN
     /\ sa * sb < 0
     /\ Sgn(Cross(Sub(a, p), Sub(b, a))) * (sb - sa) > 0
 Crossings(p, vs, d) == Cardinality({i \in 1..Len(vs) : Crossed(p, d, vs[i], vs[Nxt(i, Len(vs))])})
 
-StrictIn(p, vs) == ~OnBoundary(p, vs) /\ Crossings(p, vs, Ray1(p, vs)) % 2 = 1
+\* strictly inside, by the crossing number along ray d (d must miss every vertex)
+StrictIn(p, vs, d) == ~OnBoundary(p, vs) /\ Crossings(p, vs, d) % 2 = 1
 
 (* ---------------------------------------------------------------- the documented predicates *)
-Inside(p, vs, side) == IF OnBoundary(p, vs) THEN side ELSE StrictIn(p, vs)
-InsideOnly(p, vs) == Inside(p, vs, FALSE)
-Outside(p, vs, side) == IF OnBoundary(p, vs) THEN side ELSE ~StrictIn(p, vs)
-OutsideOnly(p, vs) == Outside(p, vs, FALSE)
-SideOnly(p, vs) == OnBoundary(p, vs)
-Wind(p, vs) == IF StrictIn(p, vs) THEN (IF Area2(vs) > 0 THEN 1 ELSE -1) ELSE 0
+\* given the two geometric facts about p: on = on the boundary, sin = strictly inside
+Inside(on, sin, side) == IF on THEN side ELSE sin
+InsideOnly(on, sin) == Inside(on, sin, FALSE)
+Outside(on, sin, side) == IF on THEN side ELSE ~sin
+OutsideOnly(on, sin) == Outside(on, sin, FALSE)
+SideOnly(on, sin) == on
+Wind(on, sin, area2) == IF on \/ ~sin THEN 0 ELSE IF area2 > 0 THEN 1 ELSE -1
+
+\* the answers for polygon vs and the sequence of points ps: one table row
+\* (TLCEval makes TLC compute each sequence once instead of re-evaluating it at every use)
+Each(F(_), n) == TLCEval([i \in 1..n |-> F(i)])
+Row(vs, ps) ==
+    LET n == Len(ps)
+        d == Ray1(vs, ps)
+        a2 == Area2(vs)
+        on == Each(LAMBDA i : OnBoundary(ps[i], vs), n)
+        sin == Each(LAMBDA i : StrictIn(ps[i], vs, d), n) IN
+    [vs |-> vs, ps |-> ps, on |-> on, sin |-> sin,
+     sides |-> Each(LAMBDA i : SetToSeq(OnSides(ps[i], vs)), n),
+     insideT |-> Each(LAMBDA i : Inside(on[i], sin[i], TRUE), n),
+     insideF |-> Each(LAMBDA i : Inside(on[i], sin[i], FALSE), n),
+     insideOnly |-> Each(LAMBDA i : InsideOnly(on[i], sin[i]), n),
+     outsideT |-> Each(LAMBDA i : Outside(on[i], sin[i], TRUE), n),
+     outsideF |-> Each(LAMBDA i : Outside(on[i], sin[i], FALSE), n),
+     outsideOnly |-> Each(LAMBDA i : OutsideOnly(on[i], sin[i]), n),
+     sideOnly |-> Each(LAMBDA i : SideOnly(on[i], sin[i]), n),
+     wind |-> Each(LAMBDA i : Wind(on[i], sin[i], a2), n)]
 
 (* ---------------------------------------------------------------- cases *)
+\* The cases are dealt into NShards shards.  The model starts in one marker state per shard; the single step
+\* Emit(k) computes the rows of shard k, writes them as JSON for the harness (binding C) and moves to each of
+\* them, so that TLC's workers share the work and every row is a state on which the lemmas are checked.
 GridSeq == [k \in 1..(N * N) |-> <<(k - 1) \div N, (k - 1) % N>>]
 GridSet == {GridSeq[k] : k \in 1..(N * N)}
-FirstPts == {GridSeq[k] : k \in {k \in 1..(N * N) : k % NShards = Shard}}
-GridPolys == {vs \in UNION {{<<a>> \o r : a \in FirstPts, r \in [1..(n - 1) -> GridSet]} : n \in MinV..MaxV} : Simple(vs)}
+\* grid source: shard k has the polygons whose first two vertices are the q-th pair of grid points, q % NShards = k
+FirstTwo(k) == {<<GridSeq[q[1]], GridSeq[q[2]]>> : q \in {q \in (1..(N * N)) \X (1..(N * N)) : ((q[1] - 1) * N * N + q[2]) % NShards = k}}
+\* (written so that TLC never builds the set of all candidate sequences, only the simple ones)
+GridPolys(k) == UNION {UNION {{f \o r : r \in {r \in [1..(n - 2) -> GridSet] : Simple(f \o r)}} : f \in FirstTwo(k)} : n \in MinV..MaxV}
 
-FileCases == JsonDeserialize(IOEnv.CASES_IN)      \* sequence of [vs |-> <<<<x, y>>, ...>>, ps |-> <<<<x, y>>, ...>>]
+\* file source: a sequence of [vs |-> <<<<x, y>>, ...>>, ps |-> <<<<x, y>>, ...>>]; figures that are not simple are dropped
+FileCases == JsonDeserialize(IOEnv.CASES_IN)
 
-Cases == IF Source = "grid" THEN {[vs |-> v, ps |-> GridSeq] : v \in GridPolys}
-         ELSE {FileCases[i] : i \in {i \in 1..Len(FileCases) : Simple(FileCases[i].vs)}}
+ShardRows(k) == IF Source = "grid" THEN {Row(v, GridSeq) : v \in GridPolys(k)}
+                ELSE {Row(FileCases[i].vs, FileCases[i].ps) : i \in {i \in 1..Len(FileCases) : i % NShards = k /\ Simple(FileCases[i].vs)}}
 
-VARIABLE c
-Init == c \in Cases
-Next == UNCHANGED c
-Spec == Init /\ [][Next]_c
+IsRow == "vs" \in DOMAIN row
+Init == row \in {[shard |-> k] : k \in Only}
+Emit(k) == /\ ~IsRow /\ row.shard = k
+           /\ LET rs == ShardRows(k) IN
+              /\ JsonSerialize(IOEnv.TABLE_OUT \o "-" \o ToString(k) \o ".json", SetToSeq(rs))
+              /\ row' \in rs
+Next == \E k \in Only : Emit(k)
+Spec == Init /\ [][Next]_row
 
-Pts(cs) == {cs.ps[i] : i \in 1..Len(cs.ps)}
+Idx == 1..Len(row.ps)
 
-(* ---------------------------------------------------------------- lemmas checked on every case *)
-HasArea == Area2(c.vs) # 0
-\* the chosen rays never graze a vertex when p is off the boundary, and any two of them agree (Jordan)
-RaysMiss == \A p \in Pts(c) : ~OnBoundary(p, c.vs) =>
-    \A i \in 1..Len(c.vs) : SideOfRay(p, Ray1(p, c.vs), c.vs[i]) # 0 /\ SideOfRay(p, Ray2(p, c.vs), c.vs[i]) # 0
-RaysAgree == \A p \in Pts(c) : ~OnBoundary(p, c.vs) =>
-    Crossings(p, c.vs, Ray1(p, c.vs)) % 2 = Crossings(p, c.vs, Ray2(p, c.vs)) % 2
-\* Pick's theorem: twice the area = 2 * interior lattice points + boundary lattice points - 2
-Box(vs) == {<<x, y>> : x \in SetMin({vs[i][1] : i \in 1..Len(vs)})..SetMax({vs[i][1] : i \in 1..Len(vs)}),
-                       y \in SetMin({vs[i][2] : i \in 1..Len(vs)})..SetMax({vs[i][2] : i \in 1..Len(vs)})}
-Abs(x) == IF x < 0 THEN -x ELSE x
-Pick == LET b == Box(c.vs) IN
-    Abs(Area2(c.vs)) = 2 * Cardinality({p \in b : StrictIn(p, c.vs)}) + Cardinality({p \in b : OnBoundary(p, c.vs)}) - 2
+(* ---------------------------------------------------------------- lemmas checked on every row *)
+HasArea == IsRow => Area2(row.vs) # 0
+IsSimple == IsRow => Simple(row.vs)
+\* the chosen rays graze no vertex when p is off the boundary, and the two rays agree (Jordan curve theorem)
+RaysMiss == IsRow => \A i \in Idx : ~row.on[i] => \A j \in 1..Len(row.vs) :
+    SideOfRay(row.ps[i], Ray1(row.vs, row.ps), row.vs[j]) # 0 /\ SideOfRay(row.ps[i], Ray2(row.vs, row.ps), row.vs[j]) # 0
+RaysAgree == IsRow => LET d == Ray2(row.vs, row.ps) IN \A i \in Idx : row.sin[i] = StrictIn(row.ps[i], row.vs, d)
+\* Pick's theorem: twice the area = 2 * interior lattice points + boundary lattice points - 2,
+\* checked on the rows that examine every lattice point of the polygon's bounding box
+MinX(vs) == SetMin({vs[i][1] : i \in 1..Len(vs)})    MaxX(vs) == SetMax({vs[i][1] : i \in 1..Len(vs)})
+MinY(vs) == SetMin({vs[i][2] : i \in 1..Len(vs)})    MaxY(vs) == SetMax({vs[i][2] : i \in 1..Len(vs)})
+InBBox(p, vs) == MinX(vs) <= p[1] /\ p[1] <= MaxX(vs) /\ MinY(vs) <= p[2] /\ p[2] <= MaxY(vs)
+CoversBox == LET in == {row.ps[i] : i \in {i \in Idx : InBBox(row.ps[i], row.vs)}} IN
+    Cardinality(in) = (MaxX(row.vs) - MinX(row.vs) + 1) * (MaxY(row.vs) - MinY(row.vs) + 1)
+Pick == (IsRow /\ CoversBox) =>
+    Abs(Area2(row.vs)) = 2 * Cardinality({row.ps[i] : i \in {i \in Idx : row.sin[i]}})
+                           + Cardinality({row.ps[i] : i \in {i \in Idx : row.on[i]}}) - 2
 \* exactly one of strictly inside / strictly outside / on the boundary; the side flag only matters on the boundary
-Trichotomy == \A p \in Pts(c) :
-    Cardinality({k \in 1..3 : <<InsideOnly(p, c.vs), OutsideOnly(p, c.vs), SideOnly(p, c.vs)>>[k]}) = 1
-Duality == \A p \in Pts(c) : \A side \in BOOLEAN :
-    /\ Inside(p, c.vs, side) = ~Outside(p, c.vs, ~side)
-    /\ Inside(p, c.vs, TRUE) = (InsideOnly(p, c.vs) \/ SideOnly(p, c.vs))
-    /\ Outside(p, c.vs, TRUE) = (OutsideOnly(p, c.vs) \/ SideOnly(p, c.vs))
-WindZero == \A p \in Pts(c) : (Wind(p, c.vs) = 0) = (OutsideOnly(p, c.vs) \/ SideOnly(p, c.vs))
+Trichotomy == IsRow => \A i \in Idx : Cardinality({k \in 1..3 : <<row.insideOnly[i], row.outsideOnly[i], row.sideOnly[i]>>[k]}) = 1
+Duality == IsRow => \A i \in Idx :
+    /\ row.insideT[i] = ~row.outsideF[i] /\ row.insideF[i] = ~row.outsideT[i]
+    /\ row.insideT[i] = (row.insideOnly[i] \/ row.sideOnly[i])
+    /\ row.outsideT[i] = (row.outsideOnly[i] \/ row.sideOnly[i])
+    /\ row.sideOnly[i] = (row.sides[i] # <<>>)
+WindZero == IsRow => \A i \in Idx : (row.wind[i] = 0) = (row.outsideOnly[i] \/ row.sideOnly[i])
 \* walking the polygon the other way, or starting at another vertex, changes nothing but the sign of wind
 Rot(vs) == Tail(vs) \o <<Head(vs)>>
-Reversal == LET r == Reverse(c.vs) IN
-    /\ Simple(r) /\ Simple(Rot(c.vs))
-    /\ \A p \in Pts(c) : /\ OnBoundary(p, r) = OnBoundary(p, c.vs) /\ StrictIn(p, r) = StrictIn(p, c.vs)
-                         /\ Wind(p, r) = -Wind(p, c.vs) /\ Wind(p, Rot(c.vs)) = Wind(p, c.vs)
+Reversal == (IsRow /\ Deep) => LET r == Row(Reverse(row.vs), row.ps)  t == Row(Rot(row.vs), row.ps) IN
+    /\ Simple(Reverse(row.vs)) /\ Simple(Rot(row.vs))
+    /\ r.on = row.on /\ r.sin = row.sin /\ t.on = row.on /\ t.sin = row.sin /\ t.wind = row.wind
+    /\ \A i \in Idx : r.wind[i] = -row.wind[i]
 \* similarity: translating by (-3, -2) and doubling changes nothing (licence for the harness to replay
 \* the table on shifted / scaled / float coordinates)
 Sim(p) == <<2 * p[1] - 3, 2 * p[2] - 2>>
-Similarity == LET w == [i \in 1..Len(c.vs) |-> Sim(c.vs[i])] IN
+Similarity == (IsRow /\ Deep) => LET w == [i \in 1..Len(row.vs) |-> Sim(row.vs[i])]
+                          r == Row(w, [i \in Idx |-> Sim(row.ps[i])]) IN
     /\ Simple(w)
-    /\ \A p \in Pts(c) : /\ OnSides(Sim(p), w) = OnSides(p, c.vs) /\ StrictIn(Sim(p), w) = StrictIn(p, c.vs)
-                         /\ Wind(Sim(p), w) = Wind(p, c.vs)
+    /\ r.on = row.on /\ r.sin = row.sin /\ r.wind = row.wind /\ r.sides = row.sides
 
-(* ---------------------------------------------------------------- the table (binding C) *)
-Row(cs) == LET f(Op(_)) == [i \in 1..Len(cs.ps) |-> Op(cs.ps[i])]
-               InT(p) == Inside(p, cs.vs, TRUE)      InF(p) == Inside(p, cs.vs, FALSE)
-               OutT(p) == Outside(p, cs.vs, TRUE)    OutF(p) == Outside(p, cs.vs, FALSE)
-               InO(p) == InsideOnly(p, cs.vs)        OutO(p) == OutsideOnly(p, cs.vs)
-               SdO(p) == SideOnly(p, cs.vs)          Wd(p) == Wind(p, cs.vs)
-               Sds(p) == SetToSeq(OnSides(p, cs.vs)) IN
-    [vs |-> cs.vs, ps |-> cs.ps, insideT |-> f(InT), insideF |-> f(InF), outsideT |-> f(OutT), outsideF |-> f(OutF),
-     insideOnly |-> f(InO), outsideOnly |-> f(OutO), sideOnly |-> f(SdO), wind |-> f(Wd), sides |-> f(Sds)]
-Table == LET s == SetToSeq(Cases) IN [i \in 1..Len(s) |-> Row(s[i])]
-ASSUME JsonSerialize(IOEnv.TABLE_OUT, Table)
 =============================================================================
